@@ -44,7 +44,6 @@
 package main
 
 import (
-	"sync/atomic"
 	"encoding/json"
 	"flag"
 	"fmt"
@@ -53,6 +52,7 @@ import (
 	"os"
 	"runtime"
 	"strings"
+	"sync/atomic"
 	"syscall"
 	"time"
 )
@@ -71,14 +71,16 @@ type finding struct {
 }
 
 type output struct {
-	Seed             int64 `json:"seed"`
-	Rounds           int   `json:"rounds"`
-	Goroutines       int   `json:"goroutines"`
-	GoMaxProcs       int   `json:"gomaxprocs"`
-	RaceEnabled      bool  `json:"race_detector"`
-	HistoriesChecked int   `json:"histories_checked"`
-	HistoryOps       int   `json:"history_ops"`
-	HistoriesUnknown int   `json:"histories_unknown"`
+	Seed               int64 `json:"seed"`
+	Rounds             int   `json:"rounds"`
+	Goroutines         int   `json:"goroutines"`
+	GoMaxProcs         int   `json:"gomaxprocs"`
+	RaceEnabled        bool  `json:"race_detector"`
+	LockHeldExecutions int   `json:"lock_held_executions"`
+	LockHeldDepCalls   int   `json:"lock_held_dependency_calls"`
+	HistoriesChecked   int   `json:"histories_checked"`
+	HistoryOps         int   `json:"history_ops"`
+	HistoriesUnknown   int   `json:"histories_unknown"`
 	// OverlappedOps counts the recorded operations during which another operation was called or
 	// returned: the measure of how much real concurrency the histories contain.
 	OverlappedOps int `json:"history_ops_overlapped"`
@@ -155,7 +157,7 @@ func main() {
 	rounds := flag.Int("rounds", 300, "rounds per sub-scenario (sections 1, 2); section 3 performs rounds × flips-per-round schedule flips")
 	gor := flag.Int("goroutines", 16, "maximum goroutines per round (sections 1, 2: 2..min(g,16)); section 3 uses g-2 executors + flipper + epoch notifier")
 	outPath := flag.String("out", "", "write the JSON report to this file (default: stdout)")
-	sections := flag.String("sections", "1,2,3", "comma separated sections to run")
+	sections := flag.String("sections", "1,2,3,4", "comma separated sections to run")
 	scenario := flag.String("scenario", "", "run only this scenario (e.g. MutexMap/same-key-add, counter-sum)")
 	round := flag.Int("round", -1, "run only this round of the selected scenarios")
 	repeat := flag.Int("repeat", 1, "execute every round's program this many times")
@@ -188,6 +190,9 @@ func main() {
 	all := []sec{
 		{"1", "map-linearizability", r.sectionMapLin},
 		{"2", sectionAtomics, r.sectionAtomics},
+		// section 4 is sequential, deterministic and fast: it runs before the free-running section 3, so that a function
+		// that deadlocks or gives its lock up in the middle is reported at once (and with the sharper message)
+		{"4", sectionLockHeld, r.sectionLockHeld},
 		{"3", sectionCharge, r.sectionCharge},
 	}
 	want := map[string]bool{}
@@ -206,6 +211,9 @@ func main() {
 			os.Exit(2)
 		}
 		r.out.SectionSeconds[s.name] = time.Since(t0).Seconds()
+		if s.id == "4" && len(r.out.Findings) > 0 {
+			break // the lock is broken: the free-running section would only find the same thing the slow way (or hang on it)
+		}
 	}
 
 	js, err := json.MarshalIndent(r.out, "", " ")
